@@ -119,6 +119,7 @@ type Cluster struct {
 	Out    *TraceWriter
 	Rng    *mrand.Rand
 	lineNo int
+	pending []pendingMsg // script driver: payloads of real nodes still in flight
 	Tainted bool // script driver: a delivery under a real node's identity had no real counterpart
 	OnLine func(l *Line)
 }
